@@ -324,15 +324,19 @@ def derived_stream(c, tmp, n, pairs, metas):
         vals = {"int": np.array([10 * x + 1 for x in a]), "float": np.array([x / 4 for x in a]),
                 "uint8": np.array([x + 1 for x in a], dtype="uint8"),
                 "int32": np.array([x - 5 for x in a], dtype="int32")}[kind]
-        ds = xr.Dataset({"v": (("a",), vals), "w": (("a",), np.array([float(x) for x in a]))}, coords={"a": a})
+        narrow = rng.random() < 0.3          # the coordinate is stored with a narrow integer type ...
+        ds = xr.Dataset({"v": (("a",), vals), "w": (("a",), np.array([float(x) for x in a]))},
+                        coords={"a": np.array(a, dtype="int32" if narrow else "int64")})
         how = rng.choice(["reindex", "merge", "combine_first"])
-        rep = {"stream": "derived-from-loaded", "engine": engine, "dtype": kind, "how": how, "a": a}
+        rep = {"stream": "derived-from-loaded", "engine": engine, "dtype": kind, "how": how, "a": a, "narrow_coordinate": narrow}
         err, bad = None, None
         try:
             xyzpy.save_ds(ds, os.path.join(d, "first"), engine=engine)
             loaded = xyzpy.load_ds(os.path.join(d, "first"), engine=engine)
             extra = [x for x in range(10, 13)][:rng.randint(1, 2)]
-            if rng.random() < 0.4:
+            if narrow and rng.random() < 0.6:
+                extra = [2 ** 33 + x for x in extra]      # ... and then grows past what that type can hold
+            elif rng.random() < 0.4:
                 extra = [x + 0.5 for x in extra]          # the (integer) coordinate itself becomes float
             other = xr.Dataset({"w": (("a",), np.array([float(x) for x in extra]))}, coords={"a": extra})
             if how == "reindex":
@@ -349,10 +353,13 @@ def derived_stream(c, tmp, n, pairs, metas):
                 if not same_values(derived[k].values, back[k].values):
                     bad = f"{k}: {want[k]} came back as {back[k].values.tolist()}"
                 # the kind the variable was written with, against the regenerated rule of save_ds
+                def coq_dt(dt):
+                    dt = np.dtype(dt)
+                    return f"({KIND[dt.kind]}, {8 * dt.itemsize})"
                 rem = loaded[k].encoding.get("dtype") if k in loaded else None
-                rem = "None" if rem is None else f"(Some {KIND[np.dtype(rem).kind]})"
-                pairs.append((f"enc_dkind (written_kind gen_dtype_rule {ENG[engine]} {rem} {KIND[derived[k].dtype.kind]} false)",
-                              back[k].dtype.kind))
+                rem = "None" if rem is None else f"(Some {coq_dt(rem)})"
+                pairs.append((f"enc_dtype (written_dtype gen_dtype_rule {ENG[engine]} {rem} {coq_dt(derived[k].dtype)} false)",
+                              [back[k].dtype.kind, 8 * back[k].dtype.itemsize]))
                 metas.append({**rep, "variable": k})
         except Exception as e:  # noqa
             err = f"{type(e).__name__}: {str(e)[:160]}"
